@@ -213,8 +213,28 @@ def _cases(draw):
         if "$upload" in json.dumps(others) and "headers" in kwargs:
             # a caller-supplied Content-Type is only meaningful on the JSON path (see above)
             kwargs["headers"] = {k: v for k, v in kwargs["headers"].items() if k.lower() != "content-type"}
+    # what the server answers: the property also demands identical OUTCOMES of the four clients, and get_data() is where
+    # they classify (which outcome is the right one is C12's business - here only their agreement is judged)
+    case["response"] = {"status": d.choice([200, 200, 200, 201, 204, 301, 304, 400, 404, 500, 503]),
+                        "body": d.choice(["data", "data", "errors", "errors_and_data", "not_json", "empty", "no_data_key"])}
+    d.tag(f"response.{case['response']['status'] // 100}xx", "response." + case["response"]["body"])
     case["features"] = sorted(d.features)
     return case
+
+
+RESPONSE_BODIES = {
+    "data": b'{"data": {"ok": true}}',
+    "errors": b'{"errors": [{"message": "boom"}]}',
+    "errors_and_data": b'{"data": {"ok": null}, "errors": [{"message": "partial", "path": ["ok"]}]}',
+    "not_json": b"<html>no</html>",
+    "empty": b"",
+    "no_data_key": b'{"ok": true}',
+}
+
+
+def scripted_response(case):
+    r = case.get("response") or {"status": 200, "body": "data"}  # (replay files older than the member)
+    return httpx.Response(r["status"], content=RESPONSE_BODIES[r["body"]], headers={"Content-Type": "application/json"})
 
 
 def strategy(tier):
@@ -372,19 +392,24 @@ def run_solo(case, variant):
     def handler(request):
         request.read()
         captured.append(request)
-        return httpx.Response(200, json={"data": {"ok": True}})
+        return scripted_response(case)
 
     if variant[3]:
         async def ahandler(request):
             await request.aread()
             captured.append(request)
-            return httpx.Response(200, json={"data": {"ok": True}})
+            return scripted_response(case)
         client = bc.make(variant, ahandler)
     else:
         client = bc.make(variant, handler)
     uploads = make_uploads(case)
     variables = None if case["variables"] is None else {k: instantiate(v, uploads) for k, v in case["variables"].items()}
     resp, exc = bc.execute(client, variant, case["query"], case["operation_name"], variables, dict(case["kwargs"]))
+    if exc is None and resp is not None:
+        try:
+            resp._vf_outcome = "data:" + json.dumps(client.get_data(resp), sort_keys=True)[:80]
+        except Exception as e:  # noqa: BLE001  the documented outcomes are exceptions of the package
+            resp._vf_outcome = "raises:" + type(e).__name__
     return captured, resp, exc
 
 
@@ -584,7 +609,8 @@ def run_case(case, scratch):
         except BaseException as e:  # noqa: BLE001
             failures.append({"clause": "crash", "sig": type(e).__name__, "msg": f"{variant[0]}: {e!r}"[:300]})
             continue
-        outcomes[variant[0]] = ("exc:" + type(exc).__name__) if exc is not None else f"status:{resp.status_code}"
+        outcomes[variant[0]] = ("exc:" + type(exc).__name__) if exc is not None else \
+            f"status:{resp.status_code} get_data->{getattr(resp, '_vf_outcome', '?')}"
         if exc is not None:
             canon[variant[0]] = "exception"
             if not silent:
